@@ -44,6 +44,7 @@ type Node struct {
 	restartAt time.Time
 	everBooted bool
 	panicStreak int
+	needBootstrap *raft.Configuration
 }
 
 // Inc is one process lifetime of a node.
@@ -128,6 +129,7 @@ type World struct {
 	journal []JournalRec
 	idleRounds int
 	finishing  bool
+	s2         bool // scenario S2: one real server, the simulator plays its peers
 }
 
 func (w *World) now() time.Duration { return time.Since(w.t0) }
@@ -273,11 +275,17 @@ func (w *World) boot(n *Node, bootstrap *raft.Configuration) *Inc {
 		inc.trans = w.net.newTransport(inc)
 		ls, ss, snaps := w.newStores(inc)
 		if bootstrap != nil {
-			if err := raft.BootstrapCluster(conf, ls, ss, snaps, inc.trans, *bootstrap); err != nil {
+			if err := raft.BootstrapCluster(conf, ls, ss, snaps, inc.trans, *bootstrap); err != nil && err != raft.ErrCantBootstrap {
 				inc.bootErr = fmt.Errorf("bootstrap: %w", err)
 				inc.booting = false
+				w.event("boot %s failed: %v", inc.tag, inc.bootErr)
+				n.needBootstrap = bootstrap
+				w.crashNow(n, "BootstrapCluster error")
+				n.restartAt = time.Now().Add(w.cfg.ElectionTimeout)
+				inc.checkAlive()
 				return
 			}
+			n.needBootstrap = nil
 		}
 		inc.imageAtBoot = w.or.captureBootImage(n)
 		inc.bootFaults = w.stats.Faults["disk_full_error"] + w.stats.Faults["disk_op_error"]
@@ -287,6 +295,14 @@ func (w *World) boot(n *Node, bootstrap *raft.Configuration) *Inc {
 		if err != nil {
 			inc.bootErr = err
 			w.event("boot %s failed: %v", inc.tag, err)
+			if w.stats.Faults["disk_full_error"]+w.stats.Faults["disk_op_error"] == inc.bootFaults {
+				w.violate("C10", "C10/newraft-error", "%s: NewRaft failed although no store operation failed during start-up: %v", inc.tag, err)
+			}
+			// the process exits; it is restarted later like after a crash
+			n.panicStreak++
+			w.crashNow(n, "NewRaft error")
+			n.restartAt = time.Now().Add(w.cfg.ElectionTimeout * time.Duration(n.panicStreak) * time.Duration(1+w.ch.Choose(simrt.SFault, 8)))
+			inc.checkAlive()
 			return
 		}
 		inc.r = r
@@ -421,7 +437,7 @@ func (w *World) pollStep() {
 	now := time.Now()
 	for _, n := range w.nodes {
 		if (n.inc == nil || !n.inc.alive) && !n.restartAt.IsZero() && !now.Before(n.restartAt) {
-			w.boot(n, nil)
+			w.boot(n, n.needBootstrap)
 		}
 	}
 }
